@@ -219,3 +219,487 @@ def _c07(ctx, params):
 
 
 c07 = wrap(_c07)
+
+
+# ---------------------------------------------------------------------------
+# C17 — gradient scaler == explicitly scaled objective
+
+
+class ScaledRun(Run):
+    """Objective s*f with gradient s*grad f (no scaler)."""
+
+    def __init__(self, prob, s, label="E"):
+        super().__init__(prob, label)
+        self.s = s
+
+    def fun(self, x, *args):
+        return super().fun(x) * self.s
+
+    def jac(self, x, *args):
+        return super().jac(x) * self.s
+
+
+def _c17(ctx, params):
+    W, prob, gtol = _setup(ctx, params)
+    info = dict(params)
+    sv = SReal(ctx.real("scale"))
+    ctx.assume(z3.And(_b(sv >= Fraction(1, 1000)), _b(sv <= 1000)), check=False)
+    ft = None
+    if params.get("ftarget"):
+        ft = SReal(ctx.real("ftarget"))
+    ftol = 0.0
+    if params.get("ftol") == "sym":
+        fv = SReal(ctx.real("ftol"))
+        ctx.assume(_b(fv >= 0), check=False)
+        ftol = fv
+    S = Run(prob, "S")
+
+    def scaler(x, grad, lb, ub):
+        S.scaler_calls.append(dict(x=list(x.data), grad=list(grad.data), lb=list(lb.data), ub=list(ub.data)))
+        return sv
+    cfgS = _cfg(params, gtol, gradient_scaler=scaler, ftol=ftol, callback_kind="false")
+    if ft is not None:
+        cfgS["ftarget"] = ft
+    S.execute(cfgS)
+    if S.exc is not None:
+        return _exc(ctx, S, info, "S")
+    if not S.gcalls:
+        # target already met at x0: no gradient is ever computed, so no scaler can be applied (documented corner)
+        return dict(cls="target-met-at-x0")
+    E = ScaledRun(prob, sv, "E")
+    cfgE = _cfg(params, gtol, ftol=ftol, callback_kind="false")
+    if ft is not None:
+        cfgE["ftarget"] = ft * sv
+    E.execute(cfgE)
+    if E.exc is not None:
+        return _exc(ctx, E, info, "E")
+    v, struct = diff_snap(snapshot_state(S.result), snapshot_state(E.result), fields=("x", "fun", "jac", "nfev", "njev", "nit", "sk", "yk", "message", "success"))
+    ctx.check("C17.same_result_as_scaled_objective", v, info=dict(info, structural=struct))
+    # same evaluation points, same order
+    if len(S.fcalls) != len(E.fcalls) or len(S.gcalls) != len(E.gcalls):
+        ctx.check("C17.same_evaluation_points", True, info=dict(info, why="%d/%d objective and %d/%d gradient calls" % (len(S.fcalls), len(E.fcalls), len(S.gcalls), len(E.gcalls))))
+    else:
+        ctx.check("C17.same_evaluation_points", zor([diff_lists(a[0], b[0]) for a, b in zip(S.fcalls, E.fcalls)] + [diff_lists(a[0], b[0]) for a, b in zip(S.gcalls, E.gcalls)]), info=info)
+    # callback states coincide too
+    if len(S.cb) != len(E.cb):
+        ctx.check("C17.same_callback_states", True, info=dict(info, why="%d vs %d callbacks" % (len(S.cb), len(E.cb))))
+    else:
+        terms = []
+        for a, b in zip(S.cb, E.cb):
+            v, struct = diff_snap(a["snap"], b["snap"])
+            terms.append(True if struct else v)
+        ctx.check("C17.same_callback_states", zor(terms), info=info)
+    # the scaler is invoked exactly once with (clipped x0, unscaled gradient there, bounds)
+    bad = len(S.scaler_calls) != 1
+    if not bad and S.gcalls:
+        c = S.scaler_calls[0]
+        x0c = S.fcalls[0][0] if S.fcalls else None
+        terms = [diff_lists(c["grad"], S.gcalls[0][1]), diff_lists(c["x"], S.gcalls[0][0]), diff_lists(c["lb"], prob.lb), diff_lists(c["ub"], prob.ub)]
+        ctx.check("C17.scaler_called_once_with_start_point_and_unscaled_gradient", zor(terms), info=info)
+    else:
+        reached_early = S.result["message"] == MESSAGES["TARGET"] and S.result["nit"] == 0 and not S.gcalls
+        ctx.check("C17.scaler_called_once_with_start_point_and_unscaled_gradient", bad and not reached_early, info=dict(info, calls=len(S.scaler_calls)))
+    if ft is not None and S.result["message"] == MESSAGES["TARGET"]:
+        # the target stop is tested on the unscaled value
+        fx = prob.f(list(S.result["x"].data))[0]
+        ctx.check("C17.target_tested_on_unscaled_value", _b(fx > ft), info=info)
+    return dict(cls="S:%s/nit=%s" % (S.result["message"][:9], S.result["nit"]))
+
+
+c17 = wrap(_c17)
+
+
+# ---------------------------------------------------------------------------
+# C14 — determinism, isolation, inputs untouched
+
+
+class RecLogger:
+    def __init__(self):
+        self.lines = []
+
+    def info(self, msg, *a):
+        self.lines.append(str(msg))
+
+    warning = info
+    debug = info
+    error = info
+
+
+def _module_state(W):
+    """Python-level mutable state of the package's modules (class attributes, mutable default arguments)."""
+    main = W.load("lbfgsb.main")
+    ls = W.load("lbfgsb.linesearch")
+    out = {}
+    IS = main.InternalState
+    for k in ("nit", "status", "task_str", "is_success", "warnflag"):
+        out["InternalState." + k] = getattr(IS, k)
+    real_ls = main._symx_real["line_search"] if hasattr(main, "_symx_real") else ls.line_search
+    for i, dflt in enumerate(real_ls.__defaults__ or ()):
+        if isinstance(dflt, SArr):
+            out["line_search.default%d" % i] = [repr(d) for d in dflt.data]
+    return out
+
+
+def _c14(ctx, params):
+    W, prob, gtol = _setup(ctx, params)
+    np = W.np
+    info = dict(params)
+    mode = params["mode"]
+    before_mod = _module_state(W)
+    base = _cfg(params, gtol, callback_kind="false")
+    P1 = Run(prob, "P1").execute(dict(base))
+    if P1.exc is not None:
+        return _exc(ctx, P1, info, "P1")
+    s1 = snapshot_state(P1.result)
+    flds = ("x", "fun", "jac", "nfev", "njev", "nit", "sk", "yk", "message", "success")
+    if mode == "repeat":
+        # another problem runs in between
+        Q = Problem(ctx, W, prob.n, params.get("pattern", ("ff",) * prob.n), name="q")
+        Run(Q, "Q").execute(dict(base, maxiter=1))
+        P2 = Run(prob, "P2").execute(dict(base))
+        if P2.exc is not None:
+            return _exc(ctx, P2, info, "P2")
+        v, struct = diff_snap(s1, snapshot_state(P2.result), fields=flds)
+        ctx.check("C14.same_arguments_same_result", v, info=dict(info, structural=struct))
+    elif mode == "nested":
+        # a complete other optimisation runs inside the objective at a symbolic call index
+        Q = Problem(ctx, W, prob.n, params.get("pattern", ("ff",) * prob.n), name="q")
+        at = ctx.choose_int(0, max(len(P1.fcalls) - 1, 0), "nest_at")
+        P2 = Run(prob, "P2")
+        orig_fun = P2.fun
+        saved = {}
+
+        def fun(x, *a):
+            if len(P2.fcalls) == at and "done" not in saved:
+                saved["done"] = True
+                keep = ST.run
+                Run(Q, "Qnested").execute(dict(base, maxiter=1))
+                ST.run = keep
+            return orig_fun(x)
+        P2.fun = fun
+        P2.execute(dict(base))
+        if P2.exc is not None:
+            return _exc(ctx, P2, info, "P2")
+        v, struct = diff_snap(s1, snapshot_state(P2.result), fields=flds)
+        ctx.check("C14.nested_run_does_not_disturb", v, info=dict(info, structural=struct, at=at))
+    elif mode == "inputs":
+        # read-only inputs are accepted and nothing is written into them
+        x0 = prob.x0_array()
+        bounds = prob.bounds_array()
+        x0.flags.writeable = False
+        bounds.flags.writeable = False
+        P2 = Run(prob, "P2").execute(dict(base, x0=x0, bounds=bounds))
+        if P2.exc is not None:
+            ctx.check("C14.read_only_inputs_accepted", True, info=dict(info, exc=type(P2.exc).__name__, msg=str(P2.exc)[:200]))
+            return dict(cls="exception")
+        ctx.check("C14.inputs_untouched", zor([diff_lists(P2.x0_before, list(x0.data)), diff_lists(P2.bounds_before, list(bounds.data))]), info=info)
+        v, struct = diff_snap(s1, snapshot_state(P2.result), fields=flds)
+        ctx.check("C14.same_arguments_same_result", v, info=dict(info, structural=struct))
+    elif mode == "checkpoint":
+        # restart twice from the same (read-only) checkpoint object, optionally with a gradient scaler
+        A = Run(prob, "A").execute(dict(base, maxiter=params["k"]))
+        if A.exc is not None:
+            return _exc(ctx, A, info, "A")
+        ck = A.result
+        snap0 = snapshot_state(ck)
+        extra = {}
+        if params.get("scaler"):
+            sv = SReal(ctx.real("scale"))
+            ctx.assume(z3.And(_b(sv >= Fraction(1, 1000)), _b(sv <= 1000)), check=False)
+            extra["gradient_scaler"] = lambda x, g, lb, ub: sv
+        if params.get("readonly"):
+            for arr in (ck["x"], ck["jac"], ck["hess_inv"].sk, ck["hess_inv"].yk):
+                arr.flags.writeable = False
+        R1 = Run(prob, "R1").execute(dict(base, x0=ck["x"], checkpoint=ck, **extra))
+        if R1.exc is not None:
+            ctx.check("C14.read_only_inputs_accepted" if params.get("readonly") else "no_exception", True,
+                      info=dict(info, exc=type(R1.exc).__name__, msg=str(R1.exc)[:200]))
+            return dict(cls="exception")
+        v, struct = diff_snap(snap0, snapshot_state(ck), fields=flds)
+        ctx.check("C14.checkpoint_untouched", v, info=dict(info, structural=struct))
+        R2 = Run(prob, "R2").execute(dict(base, x0=ck["x"], checkpoint=ck, **extra))
+        if R2.exc is not None:
+            return _exc(ctx, R2, info, "R2")
+        v, struct = diff_snap(snapshot_state(R1.result), snapshot_state(R2.result), fields=flds)
+        ctx.check("C14.restart_twice_same_result", v, info=dict(info, structural=struct))
+    elif mode == "logging":
+        lg = RecLogger()
+        P2 = Run(prob, "P2").execute(dict(base, iprint=params["iprint"], logger=lg))
+        if P2.exc is not None:
+            ctx.check("C14.logging_does_not_raise", True, info=dict(info, exc=type(P2.exc).__name__, msg=str(P2.exc)[:200]))
+            return dict(cls="exception")
+        v, struct = diff_snap(s1, snapshot_state(P2.result), fields=flds)
+        ctx.check("C14.logging_has_no_numerical_influence", v, info=dict(info, structural=struct, lines=len(lg.lines)))
+        if len(P1.fcalls) != len(P2.fcalls):
+            ctx.check("C14.logging_same_evaluations", True, info=info)
+        else:
+            ctx.check("C14.logging_same_evaluations", zor(diff_lists(a[0], b[0]) for a, b in zip(P1.fcalls, P2.fcalls)), info=info)
+    after_mod = _module_state(W)
+    ctx.check("C14.no_module_level_state_changed", before_mod != after_mod, info=dict(info, before=str(before_mod)[:300], after=str(after_mod)[:300]))
+    return dict(cls="%s:%s/nit=%s" % (mode, P1.result["message"][:9], P1.result["nit"]))
+
+
+c14 = wrap(_c14)
+
+
+# ---------------------------------------------------------------------------
+# C20 — failures of user callables surface unchanged and leave nothing behind
+
+EXC_TYPES = [TypeError, IndexError, ValueError, AssertionError, ZeroDivisionError, KeyError]
+
+
+class UserError(RuntimeError):
+    pass
+
+
+def _c20(ctx, params):
+    W, prob, gtol = _setup(ctx, params)
+    info = dict(params)
+    kind = params["kind"]
+    base = _cfg(params, gtol, callback_kind="false")
+    ftv = SReal(ctx.real("ftarget"))
+    if kind in ("ftarget",) or params.get("with_ftarget"):
+        pass
+    before_mod = _module_state(W)
+    clean = Run(prob, "clean")
+    cfg_clean = dict(base)
+    _user_callables(ctx, clean, cfg_clean, kind, ftv, gtol)
+    clean.execute(cfg_clean)
+    if clean.exc is not None:
+        return _exc(ctx, clean, info, "clean")
+    ncalls = dict(fun=len(clean.fcalls), jac=len(clean.gcalls), callback=len(clean.cb), ftarget=clean.ftarget_calls, gtol=clean.gtol_calls,
+                  scaler=len(clean.scaler_calls), update=len(clean.upd_calls))[kind]
+    if ncalls == 0:
+        return dict(cls="%s-never-called" % kind)
+    idx = ctx.choose_int(0, ncalls - 1, "fault_at")
+    etype = (EXC_TYPES + [UserError])[ctx.choose_int(0, len(EXC_TYPES), "exc_type")]
+    err = etype("user failure #%d" % idx)
+    F = Run(prob, "faulty")
+    F.faults[(kind, idx)] = err
+    cfgF = dict(base)
+    _user_callables(ctx, F, cfgF, kind, ftv, gtol)
+    F.execute(cfgF)
+    finfo = dict(info, exc_type=etype.__name__, at=idx)
+    if F.exc is None:
+        ctx.check("C20.exception_propagates", True, info=dict(finfo, got="a result with message %r" % (F.result.get("message"),)))
+    elif F.exc is not err:
+        ctx.check("C20.exception_propagates", True, info=dict(finfo, got="%s: %s" % (type(F.exc).__name__, str(F.exc)[:150])))
+    else:
+        ctx.check("C20.exception_propagates", False, info=finfo)
+    after = Run(prob, "after")
+    cfgA = dict(base)
+    _user_callables(ctx, after, cfgA, kind, ftv, gtol)
+    after.execute(cfgA)
+    if after.exc is not None:
+        ctx.check("C20.fault_free_call_afterwards_unaffected", True, info=dict(finfo, exc=type(after.exc).__name__))
+    else:
+        v, struct = diff_snap(snapshot_state(clean.result), snapshot_state(after.result), fields=("x", "fun", "jac", "nfev", "njev", "nit", "sk", "yk", "message", "success"))
+        ctx.check("C20.fault_free_call_afterwards_unaffected", v, info=dict(finfo, structural=struct))
+    ctx.check("C20.no_module_level_state_changed", before_mod != _module_state(W), info=finfo)
+    return dict(cls="%s@%d:%s" % (kind, idx, etype.__name__))
+
+
+def _user_callables(ctx, run, cfg, kind, ftv, gtol):
+    """Install the callable variants needed for fault kind `kind` on `run`/`cfg`."""
+    if kind == "ftarget":
+        def ftarget():
+            run._fault("ftarget", run.ftarget_calls)
+            run.ftarget_calls += 1
+            return ftv
+        cfg["ftarget"] = ftarget
+    if kind == "gtol":
+        def g():
+            run._fault("gtol", run.gtol_calls)
+            run.gtol_calls += 1
+            return gtol
+        cfg["gtol"] = g
+    if kind == "scaler":
+        def scaler(x, grad, lb, ub):
+            run._fault("scaler", len(run.scaler_calls))
+            run.scaler_calls.append(1)
+            return SReal.of(2)
+        cfg["gradient_scaler"] = scaler
+    if kind == "update":
+        def upd(x, f0, f0_old, grad, X, G):
+            run._fault("update", len(run.upd_calls))
+            run.upd_calls.append(1)
+            return f0, f0_old, grad, G
+        cfg["update_fun_def"] = upd
+
+
+c20 = wrap(_c20)
+
+
+# ---------------------------------------------------------------------------
+# C13 — redefining the objective on the fly
+
+
+def _c13_identity(ctx, params):
+    W, prob, gtol = _setup(ctx, params)
+    info = dict(params)
+    ftol = 0.0
+    if params.get("ftol") == "sym":
+        fv = SReal(ctx.real("ftol"))
+        ctx.assume(_b(fv >= 0), check=False)
+        ftol = fv
+    extra = {}
+    if params.get("ftarget"):
+        extra["ftarget"] = SReal(ctx.real("ftarget"))
+    base = _cfg(params, gtol, ftol=ftol, callback_kind="false", **extra)
+    N = Run(prob, "N").execute(dict(base))
+    if N.exc is not None:
+        return _exc(ctx, N, info, "N")
+    I = Run(prob, "I")
+
+    def ident(x, f0, f0_old, grad, X, G):
+        I.upd_calls.append(dict(x=list(x.data), nX=len(X)))
+        return f0, f0_old, grad, G
+    I.execute(dict(base, update_fun_def=ident))
+    if I.exc is not None:
+        return _exc(ctx, I, info, "I")
+    flds = ("x", "fun", "jac", "nfev", "njev", "nit", "sk", "yk", "message", "success", "status")
+    v, struct = diff_snap(snapshot_state(N.result), snapshot_state(I.result), fields=flds)
+    ctx.check("C13.identity_update_leaves_result_identical", v, info=dict(info, structural=struct))
+    if len(N.cb) != len(I.cb):
+        ctx.check("C13.identity_update_leaves_callback_states_identical", True, info=dict(info, why="%d vs %d callbacks" % (len(N.cb), len(I.cb))))
+    else:
+        terms = []
+        for a, b in zip(N.cb, I.cb):
+            v, struct = diff_snap(a["snap"], b["snap"], fields=flds)
+            terms.append(True if struct else v)
+        ctx.check("C13.identity_update_leaves_callback_states_identical", zor(terms), info=info)
+    if len(N.fcalls) != len(I.fcalls) or len(N.gcalls) != len(I.gcalls):
+        ctx.check("C13.identity_update_leaves_evaluations_identical", True, info=dict(info, why="call counts differ"))
+    else:
+        ctx.check("C13.identity_update_leaves_evaluations_identical", zor([diff_lists(a[0], b[0]) for a, b in zip(N.fcalls, I.fcalls)] + [diff_lists(a[0], b[0]) for a, b in zip(N.gcalls, I.gcalls)]), info=info)
+    return dict(cls="N:%s/nit=%s" % (N.result["message"][:9], N.result["nit"]))
+
+
+c13_identity = wrap(_c13_identity)
+
+
+def _c13_rewrite(ctx, params):
+    """At update call number `at` (0 = the initial call) the user switches to a new objective (f2, g2) and
+    rewrites every stored gradient with g2 at the stored point."""
+    from symx.oracle import UF
+    from .c10 import EPS
+    W, prob, gtol = _setup(ctx, params)
+    np = W.np
+    n = prob.n
+    info = dict(params)
+    at = params["at"]
+    f2, g2 = UF("qf", 1), UF("qg", n)
+    R = Run(prob, "R")
+    seen = dict(X=None)
+
+    def upd(x, f0, f0_old, grad, X, G):
+        i = len(R.upd_calls)
+        R.upd_calls.append(dict(x=list(x.data), nX=len(X)))
+        if i != at:
+            return f0, f0_old, grad, G
+        # the switch: new objective from now on, stored gradients rewritten at the stored points
+        R.fu, R.gu = f2, g2
+        from collections import deque
+        newG = deque(np.array(list(g2(list(xx.data)))) for xx in X)
+        newgrad = np.array(list(g2(list(x.data))))
+        newf = f2(list(x.data))[0]
+        newf_old = SReal(ctx.fresh("f0_old_new"))
+        seen.update(X=[list(xx.data) for xx in X], x=list(x.data), f=newf, grad=list(newgrad.data), nX=len(X))
+        R.switch_dir_index = len(R_dir_calls())
+        return newf, newf_old, newgrad, newG
+
+    def R_dir_calls():
+        return ST.dir_calls
+    d0 = len(ST.dir_calls)
+    R.execute(_cfg(params, gtol, callback_kind="false", update_fun_def=upd))
+    if R.exc is not None:
+        return _exc(ctx, R, info, "R")
+    if seen["X"] is None:
+        return dict(cls="switch-not-reached")
+    res = R.result
+    hi = res["hess_inv"]
+    m = hi.sk.shape[0]
+    # visited points: every accepted iterate of the run (start + accepted steps)
+    its = []
+    if R.fcalls:
+        its.append(R.fcalls[0][0])
+    for c in R.ls_calls:
+        if c["ret"] is not None:
+            its.append([a + c["ret"] * b for a, b in zip(c["x0"], c["d"])])
+    # 1. pairs are differences of the REWRITTEN gradients at visited points (chronological chain)
+    gv = [g2(p) for p in its]
+
+    def same(p, q):
+        t = diff_lists(p, q)
+        return z3.BoolVal(not t) if isinstance(t, bool) else z3.Not(t)
+    memo = {}
+
+    def ok(a, j):
+        if j < 0:
+            return z3.BoolVal(True)
+        if (a, j) in memo:
+            return memo[(a, j)]
+        alts = []
+        for k in range(a):
+            sdiff = [its[a][i] - its[k][i] for i in range(n)]
+            ydiff = [gv[a][i] - gv[k][i] for i in range(n)]
+            alts.append(z3.And(same([hi.sk[j, i] for i in range(n)], sdiff), same([hi.yk[j, i] for i in range(n)], ydiff), ok(k, j - 1)))
+        r = z3.Or(*alts) if alts else z3.BoolVal(False)
+        memo[(a, j)] = r
+        return r
+    if m:
+        good = z3.Or(*[ok(a, m - 1) for a in range(len(its))])
+        ctx.check("C13.pairs_are_differences_of_rewritten_gradients", z3.simplify(z3.Not(good)), info=info)
+        # 2. every retained pair satisfies the curvature condition
+        bad = []
+        for j in range(m):
+            sy = sum((hi.sk[j, i] * hi.yk[j, i] for i in range(n)), SReal.of(0))
+            yy = sum((hi.yk[j, i] * hi.yk[j, i] for i in range(n)), SReal.of(0))
+            bad.append(_b(sy <= SReal.of(EPS) * yy))
+        ctx.check("C13.retained_pairs_satisfy_curvature", zor(bad), info=info)
+    # 3. next direction computation sees the state of a restart on the new objective from the rewritten checkpoint
+    k = getattr(R, "switch_dir_index", None)
+    dirs = ST.dir_calls[d0:]
+    if k is not None and k - d0 < len(dirs) and at > 0:
+        nxt = dirs[k - d0]
+        # expected memory: filter the rewritten history (newest point always kept) then add the current point
+        pts = seen["X"] + [seen["x"]]
+        grads = [list(g2(p)) for p in seen["X"]] + [seen["grad"]]
+        # the restart semantics is evaluated by the real code itself: a fresh run from a checkpoint
+        CK = Run(prob, "CK")
+        CK.fu, CK.gu = f2, g2
+        keep_pts, keep_g = [pts[-2]], [grads[-2]] if len(pts) >= 2 else ([], [])
+        # build the checkpoint the user would write down: x, f', grad', pairs = differences over retained points
+        ret_p, ret_g = [pts[-1]], [grads[-1]]
+        chain_p, chain_g = filter_history(seen["X"], [list(g2(p)) for p in seen["X"]], EPS)
+        allp, allg = chain_p + [seen["x"]], chain_g + [seen["grad"]]
+        sk = [[b - a for a, b in zip(allp[i], allp[i + 1])] for i in range(len(allp) - 1)]
+        yk = [[b - a for a, b in zip(allg[i], allg[i + 1])] for i in range(len(allg) - 1)]
+        mm = len(sk)
+        hinv = W.sp.optimize.LbfgsInvHessProduct(np.array(sk).reshape(mm, n) if mm else np.zeros((0, n)), np.array(yk).reshape(mm, n) if mm else np.zeros((0, n)))
+        ck = W.sp.optimize.OptimizeResult(fun=seen["f"], jac=np.array(seen["grad"]), nfev=1, njev=1, nit=0, status=1, message="", x=np.array(seen["x"]), success=True, hess_inv=hinv)
+        d1 = len(ST.dir_calls)
+        CK.execute(_cfg(params, gtol, maxiter=1, x0=np.array(seen["x"]), checkpoint=ck))
+        if CK.exc is None:
+            dck = ST.dir_calls[d1:]
+            if dck:
+                ctx.check("C13.next_iterate_as_restart_on_new_objective", dir_state_diff(nxt, dck[0]), info=info)
+    return dict(cls="R:%s/nit=%s/pairs=%d" % (res["message"][:9], res["nit"], m))
+
+
+def filter_history(X, G, eps):
+    """Reference semantics of 'retained after the rewrite': walk back from the newest stored point, keep a
+    point iff the pair it forms with the previously kept (newer) point satisfies the curvature condition."""
+    keepX, keepG = [X[-1]], [G[-1]]
+    for k in range(len(X) - 2, -1, -1):
+        s = [a - b for a, b in zip(keepX[0], X[k])]
+        y = [a - b for a, b in zip(keepG[0], G[k])]
+        sy = sum((a * b for a, b in zip(s, y)), SReal.of(0))
+        yy = sum((a * a for a in y), SReal.of(0))
+        if bool(sy > SReal.of(eps) * yy):
+            keepX.insert(0, X[k])
+            keepG.insert(0, G[k])
+    return keepX, keepG
+
+
+c13_rewrite = wrap(_c13_rewrite)
